@@ -376,9 +376,29 @@ def run(ck):
         if len(comps) != 2:
             raise AnalysisError(f"{wu}: unpaired positions are not the concatenation of two selections: {T.show(rv)[:200]}")
         sides = {}
+        deferred = []
         for c0 in comps:
             elt = c0[2]
             it, ifs = c0[3][0]
+            if elt[0] == "new":
+                # label numbers used as list offsets / range bounds: they ascend along the reference and a forward query but
+                # descend along a reverse-strand query, whose range(first, last + 1) is empty
+                by_number = [x for x in T.subterms(c0) if x[0] == "call" and x[1] == "range" and
+                             any(y[0] == "attr" and y[2] == "siteId" for a0 in x[2] for y in T.subterms(a0))]
+                if by_number and "Reference" in elt[1]:
+                    # along the reference (and its contiguous window) label numbers do ascend: not shown wrong, not recognised either
+                    deferred.append(f"{wu}: unpaired reference labels enumerated by label-number arithmetic: {T.show(c0)[:160]}")
+                    sides["reference"] = (False, False, c0)
+                    continue
+                if by_number:
+                    side0 = "query"
+                    ck.violation("C12.3", short(un_fn) + ":site-id-order", wu,
+                                 "unpaired query labels are enumerated by label-number arithmetic: label numbers descend along a "
+                                 "reverse-strand query, so none of its unpaired labels is returned (and the mirror image is scored differently)",
+                                 found=T.show(by_number[0])[:160],
+                                 required="selection by membership: [.. for x in positions if x.siteId not in aligned ids]")
+                    sides[side0] = (False, False, c0)
+                    continue
             if elt[0] != "new" or len(ifs) != 1:
                 raise AnalysisError(f"{wu}: unpaired selection not recognised: {T.show(c0)[:160]}")
             side = "reference" if "Reference" in elt[1] else "query"
@@ -400,6 +420,8 @@ def run(ck):
                 vals = [v for k, v in a.items() if v == V(uS)]
                 ck.judge(bool(vals), "C12.3", short(un_fn) + ":query-offset", wu,
                          "unpaired query labels are placed with the same seed offset", found=str({k: T.show(v) for k, v in a.items()}))
+        if deferred:
+            raise AnalysisError(deferred[0])
         ck.judge(set(sides) == {"reference", "query"}, "C12.3", short(un_fn) + ":both-sides", wu,
                  "both the reference and the query side have an unpaired list", found=str(sorted(sides)))
     numbering(ck, "C12.4")
